@@ -17,8 +17,8 @@ Print Assumptions C12_balanced.
 
 (* The same for a read followed by any history on the objects it returned. *)
 Theorem C12_read_then_history_balanced :
-  forall C dk f ds ops, c_close_on_error C = true ->
-  balanced (snd (read C dk f ds) ++ concat (map snd (run C dk (fst (read C dk f ds)) ops))).
+  forall C dk f fl ds ops, c_close_on_error C = true ->
+  balanced (snd (read C dk f fl ds) ++ concat (map snd (run C dk (fst (read C dk f fl ds)) ops))).
 Proof. exact read_then_run_balanced. Qed.
 Print Assumptions C12_read_then_history_balanced.
 
@@ -27,7 +27,7 @@ Print Assumptions C12_read_then_history_balanced.
    index / node_count / part_node_count variables (F12a, open) and the node
    coordinates of a geometry without part_node_count (F12c, open). *)
 Theorem C12_lazy_read :
-  forall C dk f ds fv vv p, In (fv, vv, p) (fetches (snd (read C dk f ds))) ->
+  forall C dk f fl ds fv vv p, In (fv, vv, p) (fetches (snd (read C dk f fl ds))) ->
   fv = f /\ exists d, In d ds /\ vd_var d = vv /\
     ((vd_role d = RScalarCoord /\ vd_shape d = []) \/ count_like (vd_role d) = true \/
      vd_role d = RNodeCoord).
@@ -38,7 +38,7 @@ Print Assumptions C12_lazy_read.
    zero-dimensional scalar coordinate variables") is false of the faithful model. *)
 Theorem C12_lazy_read_unrestricted_refuted :
   exists dk f ds d, In d ds /\ (1 <= length (vd_shape d))%nat /\
-    In (vd_var d) (fetched_vars (snd (read cfg_nc4 dk f ds))).
+    In (vd_var d) (fetched_vars (snd (read cfg_nc4 dk f flags_default ds))).
 Proof. exact read_unrestricted_refuted. Qed.
 Print Assumptions C12_lazy_read_unrestricted_refuted.
 
@@ -46,8 +46,8 @@ Print Assumptions C12_lazy_read_unrestricted_refuted.
    coordinate is held as (file, address, shape, declared data type): nothing of
    it is in memory. *)
 Theorem C12_read_on_disk :
-  forall C dk f ds d, In d ds -> vd_role d <> RScalarCoord -> vd_role d <> RNodeCoord ->
-  In (OnDisk f (vd_var d) (vd_shape d) (declared_of C dk f d)) (fst (read C dk f ds)).
+  forall C dk f fl ds d, In d ds -> vd_role d <> RScalarCoord -> vd_role d <> RNodeCoord ->
+  In (OnDisk f (vd_var d) (vd_shape d) (declared_of C dk f fl d) fl) (fst (read C dk f fl ds)).
 Proof. exact read_on_disk. Qed.
 Print Assumptions C12_read_on_disk.
 
@@ -57,14 +57,14 @@ Print Assumptions C12_read_on_disk.
    type netcdf_indexer gives them; a subspace that raises has fetched nothing;
    data already in memory never touches a file. *)
 Theorem C12_fetch_only :
-  forall C dk f v sh d idx r t,
-  Forall (fun n => 0 <= n) sh -> sub C dk (OnDisk f v sh d) idx = (r, t) ->
+  forall C dk f v sh d fl idx r t,
+  Forall (fun n => 0 <= n) sh -> sub C dk (OnDisk f v sh d fl) idx = (r, t) ->
   match r with
   | Ok c' => exists ps poss st,
       parse_indices sh idx = Ok ps /\ positions_all sh ps = Ok poss /\ dk f v = Some st /\
       t = [EOpen f; EFetch f v poss; EClose f] /\
-      c' = InMem (zshape (map (@length nat) poss)) (s_realised st)
-                 (nd_map (unpack_val (s_dt st) (s_pack st)) (c_fetch C (s_raw st) poss)) /\
+      c' = InMem (zshape (map (@length nat) poss)) (s_realised fl st)
+                 (nd_map (present fl st) (c_fetch C (s_raw st) poss)) /\
       Forall2 (fun n p => Forall (fun i => Z.of_nat i < n) p) sh poss
   | Err _ => fetches t = []
   end.
@@ -85,21 +85,21 @@ Print Assumptions C12_in_memory_no_file_access.
    a file array declares the data type its data will have in memory, which
    C12_read_declares_realised_dtype shows for everything read returns. *)
 Theorem C12_lazy_is_eager :
-  forall C dk h ops, Forall (cell_ok dk) h -> fetch_ok C dk ->
+  forall C dk h ops, copy_keeps C -> Forall (cell_ok dk) h -> fetch_ok C dk ->
   map fst (run C dk h ops) = vrun (map (val dk) h) ops.
 Proof. exact run_denote. Qed.
 Print Assumptions C12_lazy_is_eager.
 
 (* ... in particular the same as bringing every object into memory first *)
 Theorem C12_lazy_eq_eager_heap :
-  forall C dk h ops, Forall (cell_ok dk) h -> fetch_ok C dk ->
+  forall C dk h ops, copy_keeps C -> Forall (cell_ok dk) h -> fetch_ok C dk ->
   map fst (run C dk h ops) = map fst (run C dk (map (eager_cell dk) h) ops).
 Proof. exact lazy_eq_eager. Qed.
 Print Assumptions C12_lazy_eq_eager_heap.
 
 (* Bringing data into memory changes no later result (equality included: OEq). *)
 Theorem C12_to_memory_transparent :
-  forall C dk h i ops, Forall (cell_ok dk) h -> fetch_ok C dk ->
+  forall C dk h i ops, copy_keeps C -> Forall (cell_ok dk) h -> fetch_ok C dk ->
   (forall c, nth_error h i = Some c -> content dk c <> None) ->
   map fst (run C dk h ops) = map fst (run C dk (run_heap C dk h [OToMem i]) ops).
 Proof. exact to_memory_transparent. Qed.
@@ -185,25 +185,25 @@ Print Assumptions C12_unpack_commutes_with_subspace.
 (* Every object read returns declares the data type its data will have in memory
    (cell_ok), whatever the packing attributes and the role of the variable ... *)
 Theorem C12_read_declares_realised_dtype :
-  forall C dk f ds, declares_realised C -> Forall (vdesc_ok dk f) ds ->
-  Forall (cell_ok dk) (fst (read C dk f ds)).
+  forall C dk f fl ds, declares_realised C -> Forall (vdesc_ok dk f) ds ->
+  Forall (cell_ok dk) (fst (read C dk f fl ds)).
 Proof. exact read_cells_ok. Qed.
 Print Assumptions C12_read_declares_realised_dtype.
 
 (* ... hence every history on what read returned shows what eager access shows,
    data types included: bringing data into memory changes no result ... *)
 Theorem C12_read_then_lazy_is_eager :
-  forall C dk f ds ops, declares_realised C -> fetch_ok C dk -> Forall (vdesc_ok dk f) ds ->
-  map fst (run C dk (fst (read C dk f ds)) ops) = vrun (map (val dk) (fst (read C dk f ds))) ops.
+  forall C dk f fl ds ops, copy_keeps C -> declares_realised C -> fetch_ok C dk -> Forall (vdesc_ok dk f) ds ->
+  map fst (run C dk (fst (read C dk f fl ds)) ops) = vrun (map (val dk) (fst (read C dk f fl ds))) ops.
 Proof. exact read_then_lazy_is_eager. Qed.
 Print Assumptions C12_read_then_lazy_is_eager.
 
 (* ... and x.equals(a copy of x brought into memory) is True. *)
 Theorem C12_equals_own_memory_copy :
-  forall C dk f ds i c, declares_realised C -> fetch_ok C dk -> Forall (vdesc_ok dk f) ds ->
-  nth_error (fst (read C dk f ds)) i = Some c -> content dk c <> None ->
-  map fst (run C dk (fst (read C dk f ds))
-             [OCopy i; OToMem (length (fst (read C dk f ds))); OEq i (length (fst (read C dk f ds)))]) =
+  forall C dk f fl ds i c, copy_keeps C -> declares_realised C -> fetch_ok C dk -> Forall (vdesc_ok dk f) ds ->
+  nth_error (fst (read C dk f fl ds)) i = Some c -> content dk c <> None ->
+  map fst (run C dk (fst (read C dk f fl ds))
+             [OCopy i; OToMem (length (fst (read C dk f fl ds))); OEq i (length (fst (read C dk f fl ds)))]) =
   [ONone; ONone; OBool true].
 Proof. exact read_equals_own_memory_copy. Qed.
 Print Assumptions C12_equals_own_memory_copy.
@@ -213,8 +213,8 @@ Print Assumptions C12_equals_own_memory_copy.
    copies in memory. *)
 Theorem C12_declared_dtype_example :
   declares_realised cfg_nc4 /\ declares_realised cfg_h5 /\ Forall (vdesc_ok dk_ex 0) ds_packed /\
-  map cdtype (fst (read cfg_nc4 dk_ex 0 ds_packed)) = [F8; F4; U1] /\
-  map fst (run cfg_h5 dk_ex (fst (read cfg_h5 dk_ex 0 ds_packed))
+  map cdtype (fst (read cfg_nc4 dk_ex 0 flags_default ds_packed)) = [F8; F4; U1] /\
+  map fst (run cfg_h5 dk_ex (fst (read cfg_h5 dk_ex 0 flags_default ds_packed))
              [OCopy 1; OToMem 3; OEq 1 3; OCopy 2; OToMem 4; OEq 2 4; OArr 1; OArr 2]) =
     [ONone; ONone; OBool true; ONone; ONone; OBool true;
      OArray [3] F4 [Some 2; Some 4; Some 6]; OArray [2] U1 [Some 255; Some 3]].
@@ -273,3 +273,46 @@ Theorem C12_identity_packing_example :
   unpack_z I2 {| p_unsigned := true; p_scale := Some (I2, 1); p_offset := None |} (-5) = 65531.
 Proof. exact both_attributes_type_depends_on_values. Qed.
 Print Assumptions C12_identity_packing_example.
+
+(* ---- the read options cfdm.read(mask=, unpack=) ------------------------------------ *)
+
+(* Every array reachable by a history - copies, subspaces, arrays brought into
+   memory - carries the (mask, unpack) components of the arrays the history
+   started from (for a copy that takes each component from the same component of
+   its source: copy_keeps; true of cfg_nc4 and cfg_h5). *)
+Theorem C12_flags_carried_unchanged :
+  forall C dk fl0 h ops, copy_keeps C -> Forall (has_flags fl0) h ->
+  Forall (has_flags fl0) (run_heap C dk h ops).
+Proof. exact run_keeps_flags. Qed.
+Print Assumptions C12_flags_carried_unchanged.
+
+(* Hence lazy = eager under every combination of the read options: every
+   history shows what eager access under the options of the READ shows
+   (val0 fl0: netcdf_indexer(mask=, unpack=) on the whole variable). *)
+Theorem C12_lazy_is_eager_under_options :
+  forall C dk fl0 h ops, copy_keeps C -> Forall (cell_ok dk) h -> fetch_ok C dk -> Forall (has_flags fl0) h ->
+  map fst (run C dk h ops) = vrun (map (val0 fl0 dk) h) ops.
+Proof. exact lazy_is_eager_under_options. Qed.
+Print Assumptions C12_lazy_is_eager_under_options.
+
+(* ... in particular for what read returns, whatever options it was given. *)
+Theorem C12_read_options_lazy_is_eager :
+  forall C dk f fl ds ops,
+  copy_keeps C -> declares_realised C -> fetch_ok C dk -> Forall (vdesc_ok dk f) ds ->
+  Forall (has_flags fl) (run_heap C dk (fst (read C dk f fl ds)) ops) /\
+  map fst (run C dk (fst (read C dk f fl ds)) ops) = vrun (map (val0 fl dk) (fst (read C dk f fl ds))) ops.
+Proof. exact read_options_lazy_is_eager. Qed.
+Print Assumptions C12_read_options_lazy_is_eager.
+
+(* Non-vacuity: both backends meet copy_keeps; one history (copy, subspace of the
+   copy, its array, equality with the original) under the four combinations. *)
+Theorem C12_options_example :
+  copy_keeps cfg_nc4 /\ copy_keeps cfg_h5 /\
+  map (fun fl => map fst (run cfg_h5 dk_ex (fst (read cfg_h5 dk_ex 0 fl ds_one)) [OCopy 0; OSub 1 [IInt 0]; OArr 2; OEq 0 1]))
+      [flags_default; fl_nomask; fl_nounpack; {| fl_mask := false; fl_unpack := false |}] =
+  [[ONone; ONone; OArray [1; 4] F8 [Some 0; Some 2; Some 4; Some 6]; OBool true];
+   [ONone; ONone; OArray [1; 4] F8 [Some 0; Some 2; Some 4; Some 6]; OBool true];
+   [ONone; ONone; OArray [1; 4] I2 [Some 0; Some 1; Some 2; Some 3]; OBool true];
+   [ONone; ONone; OArray [1; 4] I2 [Some 0; Some 1; Some 2; Some 3]; OBool true]].
+Proof. split; [exact copy_keeps_nc4|]. split; [exact copy_keeps_h5|]. exact options_example. Qed.
+Print Assumptions C12_options_example.
